@@ -52,12 +52,12 @@ def unique_def(fn, name):
     return None
 
 
-def expand(p, expr, fn, depth=4):
+def expand(p, expr, fn, depth=4, cond=False):
     """copy propagation: a bare local name with a single definition is replaced by that definition"""
     while depth > 0 and isinstance(expr, ast.Name) and fn is not None:
         d = unique_def(fn, expr.id)
-        if d is None:
-            break
+        if d is None or (cond and isinstance(d, (ast.List, ast.Dict, ast.Set, ast.Tuple, ast.Constant, ast.ListComp, ast.DictComp, ast.SetComp))):
+            break   # as a condition: containers are mutated after their definition; constants carry no condition
         expr = d
         depth -= 1
     return expr
@@ -82,17 +82,17 @@ def conditions_of(p, node, stop):
     while par is not None and par is not stop:
         if isinstance(par, ast.If):
             if child in par.body:
-                out.append((expand(p, par.test, stop), True))
+                out.append((expand(p, par.test, stop, cond=True), True))
             elif child in par.orelse:
-                out.append((expand(p, par.test, stop), False))
+                out.append((expand(p, par.test, stop, cond=True), False))
         elif isinstance(par, ast.While):
             if child in par.body:
                 out.append((par.test, True))
         elif isinstance(par, ast.IfExp):
             if child is par.body:
-                out.append((expand(p, par.test, stop), True))
+                out.append((expand(p, par.test, stop, cond=True), True))
             elif child is par.orelse:
-                out.append((expand(p, par.test, stop), False))
+                out.append((expand(p, par.test, stop, cond=True), False))
         child, par = par, p.parent.get(par)
     return out
 
@@ -106,10 +106,10 @@ def flat_conditions(p, node, stop):
             add(t.operand, not pol)
         elif isinstance(t, ast.BoolOp) and isinstance(t.op, ast.And) and pol:
             for v in t.values:
-                add(expand(p, v, stop), True)
+                add(expand(p, v, stop, cond=True), True)
         elif isinstance(t, ast.BoolOp) and isinstance(t.op, ast.Or) and not pol:
             for v in t.values:
-                add(expand(p, v, stop), False)
+                add(expand(p, v, stop, cond=True), False)
         else:
             out.append((t, pol))
 
@@ -129,7 +129,7 @@ def early_exit_guards(p, node, fn):
             if isinstance(blk, list) and child in blk:
                 for s in blk[:blk.index(child)]:
                     if isinstance(s, ast.If) and not s.orelse and s.body and isinstance(s.body[-1], (ast.Return, ast.Raise, ast.Continue, ast.Break)):
-                        out.append((expand(p, s.test, fn), False))
+                        out.append((expand(p, s.test, fn, cond=True), False))
         if par is fn:
             break
         child, par = par, p.parent.get(par)
